@@ -115,7 +115,7 @@ def readings_for(cfg: Dict[str, Any], ecu_class: str) -> List[cg.Reading]:
     opts: Dict[str, List[bool]] = {k: [getattr(cg.Reading(), k)] for k in cg.Reading.FLAGS}
     if any(mp["ty"] in ("u8", "i8", "u16") for mp in mps):
         opts["lex_int"] = [False, True]
-    if any(mp["ty"] == "bf2" for mp in mps):
+    if any(mp["ty"] in ("bf2", "dtc3") for mp in mps):
         opts["lex_hex"] = [False, True]
     nsvc = len(cfg["services"]) + sum(len(v.get("local", [])) for v in cfg["variants"])
     shared_req = len({s["req"] for s in cfg["services"]} |
@@ -125,6 +125,7 @@ def readings_for(cfg: Dict[str, Any], ecu_class: str) -> List[cg.Reading]:
         opts["partial_ok"] = [False, True]
         opts["echo_strict"] = [True, False]
         opts["poison"] = [True, False]
+        opts["poison_text"] = [True, False]
     keys = list(cg.Reading.FLAGS)
     return [cg.Reading(**dict(zip(keys, combo)))
             for combo in itertools.product(*[opts[k] for k in keys])]
